@@ -1756,6 +1756,10 @@ class Frame:
                 newv = final.env.get(p)
                 if isinstance(newv, Poly) and isinstance(oldv, Poly) and newv.key() != oldv.key() and "upd" in repr(newv.key())[:4000]:
                     st.env[local] = newv
+                elif isinstance(oldv, (ADict, AList)) and newv is not None and newv is not oldv and vkey(newv) != vkey(oldv):
+                    # a container filled on some paths of the helper only (the paths were forked, so the helper worked on
+                    # copies): the caller's container is the merged one
+                    st.env[local] = newv
         return res
 
     def call_method(self, recv, f, args, kwargs, st, node):
